@@ -157,4 +157,16 @@ theorem pool_inventory_put_once :
         (e.2.2.2.2.2.2.2 = "flag:r.closed" ∨ e.2.2.2.2.2.2.2 = "flag:closed")) := by
   decide
 
+/-- shared slices are never used as scratch space: in the reviewed inventory of `append` calls on
+struct fields and package-level slices of the anchored files — compared with the one re-extracted
+from the sources on every run — every result is assigned back to the very field it was appended to
+(growth of the owner's own slice), none is a temporary built on a shared backing array (the
+`md5.Sum(append(sec.key, …))` pattern), and no read path (`Get`, `KeyForRef`, `DecodeStream`,
+`Decode`) appears at all. -/
+theorem append_inventory_assigned_back :
+    ∀ e ∈ appendInventory, e.2.2.2.2 = "back" ∧
+      (e.2.1 = "NewReader" ∨ e.2.1 = "(*EmbedHelper).Defer" ∨ e.2.1 = "(*EmbedHelper).EmbedAt" ∨
+        e.2.1 = "(*ResourceManager).StoreDeferred") := by
+  decide
+
 end PdfVerif.C18concX
